@@ -85,7 +85,8 @@ theorem eval_ignores_mode (P : Program) (m : Node → Mode) : ∀ fuel n st,
     have hg : (P.withModes m).g = P.g := rfl
     have hc : ∀ x, ((P.withModes m).cfg x).useDefault = (P.cfg x).useDefault := fun _ => rfl
     have hd : (P.withModes m).dflt = P.dflt := rfl
-    simp only [Sem.eval, hf, hg, hc, hd, evalPlain_ignores_mode P m _ _ rfl, recLoop_ignores_mode]
+    have hdr : (P.withModes m).dfltRaise = P.dfltRaise := rfl
+    simp only [Sem.eval, hf, hg, hc, hd, hdr, evalPlain_ignores_mode P m _ _ rfl, recLoop_ignores_mode]
 
 /-- **the declared outcome does not depend on the execution modes** -/
 theorem C17_semantics_ignores_mode (P : Program) (m : Node → Mode) :
